@@ -20,6 +20,7 @@ import (
 	"github.com/yandex/pandora/examples/grpc/server"
 	"google.golang.org/grpc"
 	"google.golang.org/grpc/codes"
+	"google.golang.org/grpc/metadata"
 	"google.golang.org/grpc/peer"
 	"google.golang.org/grpc/reflection"
 	"google.golang.org/grpc/status"
@@ -27,10 +28,11 @@ import (
 
 type GrpcTarget struct {
 	server.UnimplementedTargetServiceServer
-	ln    *trackListener
-	srv   *grpc.Server
-	calls atomic.Int64
-	Hold  time.Duration
+	ln      *trackListener
+	srv     *grpc.Server
+	calls   atomic.Int64
+	Default atomic.Value // string: letter of calls that name none (empty payload, no metadata)
+	Hold    time.Duration
 }
 
 type trackListener struct {
@@ -78,7 +80,16 @@ func (t *GrpcTarget) Close()       { t.srv.Stop() }
 
 func (t *GrpcTarget) Hello(ctx context.Context, r *server.HelloRequest) (*server.HelloResponse, error) {
 	t.calls.Add(1)
+	// the letter: HelloRequest.name; for calls with an empty payload the metadata entry x-letter; else the target's default
 	letter := r.GetName()
+	if letter == "" {
+		if md, ok := metadata.FromIncomingContext(ctx); ok && len(md.Get("x-letter")) > 0 {
+			letter = md.Get("x-letter")[0]
+		}
+	}
+	if letter == "" {
+		letter, _ = t.Default.Load().(string)
+	}
 	switch {
 	case len(letter) > 1 && letter[0] == 'c' && strings.Trim(letter[1:], "0123456789") == "":
 		code := 0
